@@ -138,6 +138,7 @@ pub struct Cfg {
     pub big_ints: bool,
     pub type_level: bool,   // type-level redexes, aliases and conditionals in annotations
     pub recursion: bool,    // recursive and mutually recursive function definitions
+    pub rec_families: bool, // type families defined by recursion on an integer index, used at neutral indices
     pub trap: bool,         // plant one ill-typed use guarded only by decoy definitions (the program must be rejected)
 }
 
@@ -294,15 +295,30 @@ impl<'a> ProgGen<'a> {
                 let fun = H::Lam(tn.clone(), false, Some(hb(H::Int)), hb(H::If(hb(H::Bin(Op::Le, hb(var(&tn)), hb(H::lit(0)))), hb(H::lit(c)), hb(step))));
                 let fty = H::Pi("_".into(), false, hb(H::Int), hb(H::Int));
                 let call = H::App(hb(var(&trec)), hb(H::lit(m)));
+                // the constant is a plain definition or a constant function (so that two adjacent
+                // function definitions exist), before or after the recursive one
+                let k_is_fun = self.r.chance(1, 3);
+                let kref = if k_is_fun { H::App(hb(var(&tk)), hb(H::lit(0))) } else { var(&tk) };
                 let (cond, truth) = match self.r.below(3) {
-                    0 => (H::Bin(Op::Eq, hb(call), hb(var(&tk))), true),
-                    1 => (H::Bin(Op::Lt, hb(call), hb(var(&tk))), false),
-                    _ => (H::Bin(Op::Ge, hb(var(&tk)), hb(call)), true),
+                    0 => (H::Bin(Op::Eq, hb(call), hb(kref)), true),
+                    1 => (H::Bin(Op::Lt, hb(call), hb(kref)), false),
+                    _ => (H::Bin(Op::Ge, hb(kref), hb(call)), true),
                 };
                 let body = if truth { H::If(hb(cond), hb(base), hb(other)) } else { H::If(hb(cond), hb(other), hb(base)) };
-                let fann = if self.cfg.mode == Mode::Inferred && self.r.chance(1, 3) { None } else { Some(hb(fty)) };
-                let kann = if self.cfg.mode == Mode::Inferred && self.r.chance(1, 3) { None } else { Some(hb(H::Int)) };
-                H::Paren(hb(H::Let(trec, fann, hb(fun), hb(H::Let(tk, kann, hb(H::lit(c + a * m)), hb(body))))))
+                let inferred = self.cfg.mode == Mode::Inferred;
+                let fann = if inferred && self.r.chance(1, 3) { None } else { Some(hb(fty.clone())) };
+                let (kty, kdef) = if k_is_fun {
+                    let z = format!("{tn}z");
+                    (fty, H::Lam(z, false, Some(hb(H::Int)), hb(H::lit(c + a * m))))
+                } else {
+                    (H::Int, H::lit(c + a * m))
+                };
+                let kann = if inferred && self.r.chance(1, 3) { None } else { Some(hb(kty)) };
+                if self.r.chance(1, 2) {
+                    H::Paren(hb(H::Let(trec, fann, hb(fun), hb(H::Let(tk, kann, hb(kdef), hb(body))))))
+                } else {
+                    H::Paren(hb(H::Let(tk, kann, hb(kdef), hb(H::Let(trec, fann, hb(fun), hb(body))))))
+                }
             }
             _ => base,
         }
@@ -753,7 +769,7 @@ impl<'a> ProgGen<'a> {
                     let ty = self.random_type(1);
                     kinds.push(Kind::Placeholder(ty));
                 }
-                10 if self.cfg.type_level && self.cfg.recursion && self.r.chance(1, 2) => {
+                10 if self.cfg.type_level && self.cfg.recursion && self.cfg.rec_families && self.r.chance(1, 3) => {
                     let ty = if self.r.chance(1, 2) { GT::Int } else { GT::Bool };
                     kinds.push(Kind::PadFam(ty.clone()));
                     kinds.push(Kind::PadGet);
@@ -993,8 +1009,12 @@ impl<'a> ProgGen<'a> {
     fn dep_coerce(&mut self) -> (H, H) {
         let n = self.fresh_name("n");
         self.ctx.push(Entry { name: n.clone(), ty: GT::Int, alias_of: None, usable: false, recursive_fn: false });
+        let m = self.fresh_name("m");
+        self.ctx.push(Entry { name: m.clone(), ty: GT::Int, alias_of: None, usable: false, recursive_fn: false });
+        let fp = self.fresh_name("fam");
+        self.ctx.push(Entry { name: fp.clone(), ty: GT::Opaque, alias_of: None, usable: false, recursive_fn: false });
         let x = self.fresh_name("x");
-        self.ctx.pop();
+        self.ctx.truncate(self.ctx.len() - 3);
         let k = 1 + self.r.below(6) as i64;
         let lit_variants = |r: &mut Rng, k: i64| -> H {
             match r.below(4) {
@@ -1004,19 +1024,40 @@ impl<'a> ProgGen<'a> {
                 _ => H::Bin(Op::Mul, hb(H::lit(1)), hb(H::lit(k))),
             }
         };
-        let op = [Op::Add, Op::Sub, Op::Mul, Op::Div][self.r.usize(4)];
+        // 0: concrete family `if e cmp c then int else bool`; 1: the family is a parameter of type
+        // int -> type and the index a stuck arithmetic term; 2: a parameter of type bool -> type
+        // and the index a stuck comparison. With an abstract family the two indices meet in
+        // `unify` as they are (nothing above them is normalised first).
+        let style = self.r.below(3);
+        let two_vars = style != 0 && self.r.chance(1, 2);
+        let op = if style == 2 { [Op::Lt, Op::Le, Op::Eq, Op::Gt, Op::Ge][self.r.usize(5)] } else { [Op::Add, Op::Sub, Op::Mul, Op::Div][self.r.usize(4)] };
         let left = self.r.chance(1, 2);
         let mk = |r: &mut Rng| -> H {
-            let l = lit_variants(r, k);
             let nv = H::Var(n.clone());
-            if left { H::Bin(op, hb(nv), hb(l)) } else { H::Bin(op, hb(l), hb(nv)) }
+            let other = if two_vars { H::Var(m.clone()) } else { lit_variants(r, k) };
+            // with two variables the literal variation moves into a harmless `+ 0`-like context
+            let other = if two_vars && r.chance(1, 2) { H::Bin(Op::Add, hb(other), hb(H::Bin(Op::Sub, hb(H::lit(k)), hb(lit_variants(r, k))))) } else { other };
+            if left { H::Bin(op, hb(nv), hb(other)) } else { H::Bin(op, hb(other), hb(nv)) }
         };
         let (e1, e2) = (mk(self.r), mk(self.r));
         let cmp = [Op::Lt, Op::Le, Op::Eq, Op::Gt, Op::Ge][self.r.usize(5)];
         let c0 = self.r.below(5) as i64;
-        let fam = |e: H| H::If(hb(H::Bin(cmp, hb(e), hb(H::lit(c0)))), hb(H::Int), hb(H::Bool));
-        let ann = H::Pi(n.clone(), false, hb(H::Int), hb(H::Pi("_".into(), false, hb(fam(e1.clone())), hb(fam(e2)))));
-        let def = H::Lam(n, false, Some(hb(H::Int)), hb(H::Lam(x.clone(), false, Some(hb(fam(e1))), hb(H::Var(x)))));
+        let fpc = fp.clone();
+        let fam = move |e: H| if style == 0 { H::If(hb(H::Bin(cmp, hb(e), hb(H::lit(c0)))), hb(H::Int), hb(H::Bool)) } else { H::App(hb(H::Var(fpc.clone())), hb(e)) };
+        let mut ann = H::Pi("_".into(), false, hb(fam(e1.clone())), hb(fam(e2)));
+        let mut def = H::Lam(x.clone(), false, Some(hb(fam(e1))), hb(H::Var(x)));
+        if two_vars {
+            ann = H::Pi(m.clone(), false, hb(H::Int), hb(ann));
+            def = H::Lam(m, false, Some(hb(H::Int)), hb(def));
+        }
+        ann = H::Pi(n.clone(), false, hb(H::Int), hb(ann));
+        def = H::Lam(n, false, Some(hb(H::Int)), hb(def));
+        if style != 0 {
+            self.feature("dependent-coercion-under-abstract-family");
+            let fty = H::Pi("_".into(), false, hb(if style == 2 { H::Bool } else { H::Int }), hb(H::Type));
+            ann = H::Pi(fp.clone(), false, hb(fty.clone()), hb(ann));
+            def = H::Lam(fp, false, Some(hb(fty)), hb(def));
+        }
         (ann, def)
     }
 
@@ -1111,7 +1152,7 @@ pub fn gen_program_of(r: &mut Rng, mode: Mode, ty: &GT) -> Program {
 
 pub fn gen_program_with(r: &mut Rng, mode: Mode, ty: &GT, recursion: bool) -> Program {
     let size = 4 + r.usize(30);
-    let cfg = Cfg { mode, size, effects: false, big_ints: r.chance(1, 3), type_level: r.chance(2, 3), recursion, trap: false };
+    let cfg = Cfg { mode, size, effects: false, big_ints: r.chance(1, 3), type_level: r.chance(2, 3), recursion, rec_families: true, trap: false };
     let depth = 2 + r.usize(3);
     let mut g = ProgGen::new(r, cfg);
     let h = if g.r.chance(1, 2) { g.group(ty, depth) } else { g.term(ty, depth) };
@@ -1121,7 +1162,7 @@ pub fn gen_program_with(r: &mut Rng, mode: Mode, ty: &GT, recursion: bool) -> Pr
 // A program with exactly one planted type error (see Cfg::trap); None if no trap was planted.
 pub fn gen_trap_program(r: &mut Rng, mode: Mode) -> Option<Program> {
     let size = 8 + r.usize(30);
-    let cfg = Cfg { mode, size, effects: false, big_ints: false, type_level: true, recursion: r.chance(1, 2), trap: true };
+    let cfg = Cfg { mode, size, effects: false, big_ints: false, type_level: true, recursion: r.chance(1, 2), rec_families: true, trap: true };
     let depth = 3 + r.usize(3);
     let mut g = ProgGen::new(r, cfg);
     let ty = if g.r.chance(1, 2) { GT::Int } else { GT::Bool };
@@ -1142,9 +1183,20 @@ pub fn gen_trap_program(r: &mut Rng, mode: Mode) -> Option<Program> {
     Some(Program { h, ty, mode, features: g.features.clone() })
 }
 
+// As gen_program, without recursively defined type families: gram's conversion check does not
+// terminate once a neutral index of such a family is written in two different ways (`pad m`
+// against `pad (if true then m else 0)` unfolds for ever), which meaning-preserving rewrites do.
+pub fn gen_program_without_rec_families(r: &mut Rng, mode: Mode) -> Program {
+    gen_program_opt(r, mode, false)
+}
+
 pub fn gen_program(r: &mut Rng, mode: Mode) -> Program {
+    gen_program_opt(r, mode, true)
+}
+
+fn gen_program_opt(r: &mut Rng, mode: Mode, rec_families: bool) -> Program {
     let size = if r.chance(1, 8) { 40 + r.usize(80) } else { 4 + r.usize(30) };
-    let cfg = Cfg { mode, size, effects: false, big_ints: r.chance(1, 3), type_level: r.chance(2, 3), recursion: true, trap: false };
+    let cfg = Cfg { mode, size, effects: false, big_ints: r.chance(1, 3), type_level: r.chance(2, 3), recursion: true, rec_families, trap: false };
     let depth = 2 + r.usize(4);
     let mut g = ProgGen::new(r, cfg);
     let ty = match g.r.below(10) {
